@@ -243,6 +243,15 @@ def train(est, data, X, y, rs, stats=None, between=None):
     if est == "kmeans_seeded":
         m = KMeansMachine(2, init_method="k-means||", random_state=rs, max_iter=3, convergence_threshold=None).fit(X)
         return [np.sort(np.asarray(m.centroids_), axis=0)]
+    if est == "kmeans_random_seeded":
+        # seeded `random` initialisation of four clusters on quantised data (few distinct points, each several times): drawing the
+        # same point twice is ordinary there
+        Xq = np.round(np.asarray(X)[:, :2] * 0.5)[: max(12, len(X) // 2)]
+        out = []
+        for rs_ in range(rs, rs + 6):  # several seeds: whether two of the four starting points coincide depends on the seed
+            m = KMeansMachine(4, init_method="random", random_state=rs_, max_iter=2, convergence_threshold=None).fit(Xq)
+            out.append(np.sort(np.asarray(m.centroids_), axis=0))
+        return out
     if est == "gmm_kmeans_seeded":  # a GMM initialised by its own (seeded) k-means trainer
         from bob.learn.em import GMMMachine
         g = GMMMachine(2, random_state=rs, max_fitting_steps=1, convergence_threshold=None,
@@ -312,7 +321,7 @@ def oracle(est, data, seed):
         again = core.impl(lambda: train(est, data, X, y, 3))
         if not isinstance(again, core.ImplError) or again.kind != base.kind:
             return {"sig": f"depends-on-history:{est}", "what": f"{est}: first fit raised {base!r}, an identical second fit gave {again!r}"}
-        if "LinAlg" not in base.kind and est not in ("kmeans_reuse", "gmm_shared_trainer", "kmeans_seeded", "gmm_kmeans_seeded"):
+        if "LinAlg" not in base.kind and est not in ("kmeans_reuse", "gmm_shared_trainer", "kmeans_seeded", "gmm_kmeans_seeded", "kmeans_random_seeded"):
             # ... and in the same way for every order of the samples (a numerical breakdown may legitimately come and go with rounding)
             for _ in range(4):
                 perm = r.permutation(len(X))
@@ -324,7 +333,7 @@ def oracle(est, data, seed):
     perm = r.permutation(len(X)) if est not in ("kmeans_reuse", "gmm_shared_trainer") else np.arange(len(X))  # seeded init: row order is D14's business
     p = core.impl(lambda: train(est, data, X[perm], y[perm], 3))
     if isinstance(p, core.ImplError) or not all(core.close(np.asarray(a, float), np.asarray(b, float), 1e-8, 1e-9) for a, b in zip(base, p)):
-        sig = KNOWN_SIG if est in ("kmeans_seeded", "gmm_kmeans_seeded") else f"depends-on-sample-order:{est}"
+        sig = KNOWN_SIG if est in ("kmeans_seeded", "gmm_kmeans_seeded", "kmeans_random_seeded") else f"depends-on-sample-order:{est}"
         found = {"sig": sig, "what": f"{est}: training on a permutation of the rows gives a different model", "perm": perm}
         if sig != KNOWN_SIG:
             return found
@@ -362,6 +371,14 @@ def search(ctx):
         if f and f["sig"] not in seen:
             seen.add(f["sig"])
             f["input"] = {"estimator": est, "dataset_seed": ctx.seed + 1, "dataset": (i // len(ests)) % 2, "oracle_seed": ctx.seed * 1000 + i}
+            fails.append(f)
+    for k_ in range(ctx.budget(2, 12)):
+        ctx.count("search:kmeans_random_seeded")
+        ctx.case(["s", "kmeans_random_seeded", k_], nontrivial=True)
+        f = oracle("kmeans_random_seeded", data[k_ % 2], ctx.seed * 1000 + 500 + k_)
+        if f and f["sig"] not in seen:
+            seen.add(f["sig"])
+            f["input"] = {"estimator": "kmeans_random_seeded", "dataset_seed": ctx.seed + 1, "dataset": k_ % 2, "oracle_seed": ctx.seed * 1000 + 500 + k_}
             fails.append(f)
     for est in ("kmeans_seeded", "gmm_kmeans_seeded"):
         ctx.count("search:" + est + ":several-thousand-rows")
